@@ -9,7 +9,7 @@ na = []
 for pid in props:
     cfgp = os.path.join(base, 'checks', pid + '.json')
     t = texts.get(pid, {})
-    if os.path.exists(cfgp) and not t.get('not_applicable'):
+    if os.path.exists(cfgp) and pid in texts and not t.get('not_applicable'):
         cfg = json.load(open(cfgp))
         checks.append({
             "property_id": pid,
